@@ -86,14 +86,14 @@ def replay_graph(cx, name, c, max_paths=None, maxpolls=2, sizes=None, timeout=90
 
 
 def random_runs(cx, name, c, n, policies=("uniform", "pct", "window"), fault_prob=0.0, cancel_prob=0.0,
-                sizes=None, traced=True, max_steps=800, pcancel_prob=0.0):
+                sizes=None, traced=True, max_steps=800, pcancel_prob=0.0, codec=False):
     cases = []
     for i in range(n):
         pol = policies[i % len(policies)]
         rand = {"seed": cx.rnd.randrange(1 << 40), "policy": pol, "fault_prob": fault_prob,
                 "cancel_prob": cancel_prob, "depth": 3, "pcancel_prob": pcancel_prob if c.get("pcancel") else 0.0}
         cases.append(go_case(c, "%s-r%d" % (name, i), cx.rnd, rand=rand, sizes=sizes, notrace=not traced,
-                             max_steps=max_steps))
+                             max_steps=max_steps, codec=codec))
     results = run_driver(cx.driver, "chan", cases, cx.wd, tag=name)
     cx.absorb(results, cases)
     if traced:
@@ -114,7 +114,18 @@ def random_runs(cx, name, c, n, policies=("uniform", "pct", "window"), fault_pro
 
 
 # ---------------------------------------------------------------- configurations
-W = lambda *ops: [tuple(o.split(":")) if ":" in o else (o, "bg") for o in ops]
+def W(*ops):
+    """op syntax: KIND[:ctx[:chunks]]"""
+    out = []
+    for o in ops:
+        parts = o.split(":")
+        kind = parts[0]
+        ctx = parts[1] if len(parts) > 1 and parts[1] else "bg"
+        if len(parts) > 2:
+            out.append((kind, ctx, int(parts[2])))
+        else:
+            out.append((kind, ctx))
+    return out
 
 
 def check_C01(cx):
@@ -274,7 +285,7 @@ def check_C06(cx):
     return finish(cx)
 
 
-KINDS = ["M", "W1", "Wv", "CW1", "CWv", "WW"]
+KINDS = ["M", "W1", "Wv", "CW1", "CWv", "WW", "RF::2", "MR::2", "MT::2"]
 
 
 def check_C11(cx):
@@ -286,7 +297,9 @@ def check_C11(cx):
         ("async-e1-m", cfg({"W1": W("M", "W1", "CW1")}, {"C1": "e1"}, qsize=1, until=True)),
         ("sync-nil", cfg({"W1": W("M", "W1", "CW1"), "W2": W("Wv", "CWv")}, {"C1": "nil"}, qsize=0)),
         ("sync-e1", cfg({"W1": W("M", "W1", "CW1"), "W2": W("Wv", "CWv")}, {"C1": "e1"}, qsize=0)),
-        ("async-2closers", cfg({"W1": W("W1", "CW1")}, {"C1": "nil", "C2": "e2"}, qsize=1, until=True)),
+        ("async-2closers", cfg({"W1": W("M", "CW1")}, {"C1": "nil", "C2": "e2"}, qsize=1, until=True)),
+        ("async-readfrom", cfg({"W1": W("RF::2", "RF::1")}, {"C1": "nil"}, qsize=1, until=True)),
+        ("sync-readfrom", cfg({"W1": W("RF::2", "MR::2")}, {"C1": "e1"}, qsize=0)),
     ]
     if not quick:
         mcs += [
@@ -330,6 +343,8 @@ def check_C11(cx):
         st = replay_graph(cx, name, c, max_paths=300 if quick else None)
         log("  replay %s: %s" % (name, st))
     big = [
+        ("r3rf", cfg({"W1": W("RF::3", "RF::2"), "W2": W("MR::2", "M"), "W3": W("MT::2")}, {"C1": "nil"}, qsize=2, until=True)),
+        ("r3rfsync", cfg({"W1": W("RF::3", "RF::2"), "W2": W("MR::2", "M"), "W3": W("MT::2")}, {"C1": "e1"}, qsize=0)),
         ("r3q2", cfg({"W1": W("M", "W1", "CW1"), "W2": W("Wv", "CWv", "WW"), "W3": W("CW1", "M")}, {"C1": "nil", "C2": "e2"}, qsize=2, until=True)),
         ("r3sync", cfg({"W1": W("M", "W1", "CW1"), "W2": W("Wv", "CWv", "WW"), "W3": W("CW1", "M")}, {"C1": "nil"}, qsize=0)),
     ]
@@ -439,4 +454,57 @@ def check_C05(cx):
     return finish(cx)
 
 
-CHECKS = {"C01": check_C01, "C02": check_C02, "C05": check_C05, "C06": check_C06, "C11": check_C11, "C18": check_C18}
+def check_C09(cx):
+    cx.build()
+    quick = cx.tier == "quick"
+    inv = ["TypeOK", "C09_Contiguous", "C01_NoDup"]
+    # single-write carriers ([]byte, [][]byte, *bytes.Buffer through Channel.Write): must stay contiguous
+    single = [
+        ("single-async", cfg({"W1": W("M", "MV"), "W2": W("MB")}, qsize=1, until=True)),
+        ("single-sync", cfg({"W1": W("M", "MV"), "W2": W("MB", "M")}, qsize=0)),
+    ]
+    if not quick:
+        single += [("single-async-q2", cfg({"W1": W("M", "MV"), "W2": W("MB"), "W3": W("M")}, qsize=2, until=False))]
+    for name, c in single:
+        mc_and_replay_cex(cx, "MC" + name.replace("-", ""), c, inv, what="C09 contiguity, single-write carriers, " + name)
+    # multi-write carriers (io.Reader delivering several chunks, multi-write io.WriterTo, ReadFrom): the
+    # specification models the code as it is - one message = several queue slots / lock acquisitions -
+    # so TLC yields the interleaving; it is replayed on the real code and reported per carrier kind
+    multi = [
+        ("reader-async", cfg({"W1": W("MR::2"), "W2": W("M")}, qsize=2, until=True)),
+        ("writerto-sync", cfg({"W1": W("MT::2"), "W2": W("M")}, qsize=0)),
+        ("readfrom-async", cfg({"W1": W("RF::2"), "W2": W("W1")}, qsize=1, until=True)),
+        ("reader-sync", cfg({"W1": W("MR::2"), "W2": W("MV")}, qsize=0)),
+    ]
+    for name, c in multi:
+        res, sched, reproduced = mc_and_replay_cex(cx, "MC" + name.replace("-", ""), c, inv, what="C09 contiguity, multi-write carrier, " + name)
+        cx.selftests["multi_write_counterexample_" + name] = {"tlc_violated": res["violated"], "reproduced_on_real_code": reproduced}
+        if not res["violated"]:
+            cx.notes.append("the specification no longer yields an interleaving for %s" % name)
+    graphs = [("gsingle", cfg({"W1": W("M"), "W2": W("MV")}, qsize=1, until=True)),
+              ("gmulti", cfg({"W1": W("MR::2"), "W2": W("M")}, qsize=1, until=True))]
+    if not quick:
+        graphs += [("gsyncmulti", cfg({"W1": W("MT::2"), "W2": W("MB"), "W3": W("M")}, qsize=0))]
+    for name, c in graphs:
+        st = replay_graph(cx, name, c, max_paths=300 if quick else None)
+        log("  replay %s: %s" % (name, st))
+    n = 30 if quick else 300
+    big = [
+        ("r4single", cfg({"W1": W("M", "MV", "MB"), "W2": W("MV", "M"), "W3": W("MB", "MB"), "W4": W("M")}, qsize=2, until=True)),
+        ("r3singlesync", cfg({"W1": W("M", "MV", "MB"), "W2": W("MV", "M"), "W3": W("MB", "MB")}, qsize=0)),
+        ("r3multi", cfg({"W1": W("MR::3", "M"), "W2": W("MT::2", "MV"), "W3": W("RF::2")}, qsize=2, until=True)),
+        ("r3multisync", cfg({"W1": W("MR::3", "M"), "W2": W("MT::2", "MV"), "W3": W("RF::2")}, qsize=0)),
+    ]
+    for name, c in big:
+        random_runs(cx, name, c, n, sizes=NZ_SIZES)
+    # messages framed by the shipped codecs (text + delimiter): []byte goes out as one vectored write,
+    # a string becomes a reader (body, then delimiter) = two low-level writes
+    for name, c in [("codec-bytes", cfg({"W1": W("MD", "MD"), "W2": W("MD"), "W3": W("MD")}, qsize=2, until=True)),
+                    ("codec-bytes-sync", cfg({"W1": W("MD", "MD"), "W2": W("MD"), "W3": W("MD")}, qsize=0)),
+                    ("codec-string", cfg({"W1": W("MS", "MS"), "W2": W("MS"), "W3": W("MD")}, qsize=2, until=True)),
+                    ("codec-string-sync", cfg({"W1": W("MS", "MS"), "W2": W("MS"), "W3": W("MD")}, qsize=0))]:
+        random_runs(cx, name, c, n, sizes=[x for x in NZ_SIZES if x <= 4096], traced=False, codec=True)
+    return finish(cx)
+
+
+CHECKS = {"C09": check_C09, "C01": check_C01, "C02": check_C02, "C05": check_C05, "C06": check_C06, "C11": check_C11, "C18": check_C18}
